@@ -26,7 +26,8 @@ ASSUMPTIONS = [
     "Cauchy integral with 96 nodes on a circle of radius 0.4 x distance to the nearest singularity of the exponent",
 ]
 REQUIRED_COUNTERS = ["exponent_real_axis", "exponent_imaginary_axis", "cumulant_checks", "conversion_roundtrips",
-                     "conversion_differences", "martingale_cf", "martingale_direct_drift", "martingale_chain_drift", "models_reached_by_parameter_update", "exponent_after_conversion"]
+                     "conversion_differences", "martingale_cf", "martingale_direct_drift", "martingale_chain_drift", "models_reached_by_parameter_update", "exponent_after_conversion",
+                     "truncated_measure_drifts", "chain_model_drifts"]
 MIN_NONTRIVIAL = {"quick": 30, "thorough": 300}
 THOROUGH_ROUNDS = 8      # the thorough tier runs the generators this many times (different seeds)
 SHARD_TIMEOUT = {"quick": 900, "thorough": 7200}
@@ -271,6 +272,54 @@ def run_case(case, R):
             R.hit("conversion_roundtrips")
             if not (abs(cur_a - a0) <= 1e-11 * (1 + abs(a0)) + 1e-12):
                 R.violation(f"{fam}-conversion-not-reversible", f"{label}: after the sequence {seq} the drift is {cur_a!r}, it was {a0!r} in {rep0}", wit)
+        # ---- (iii-b) the measure truncated (what every Markov-chain process does with its copy of the model, then TILDE): the declared
+        #      (drift, representation) of the truncated model is still the one of the same process with the jumps outside the interval
+        #      removed:  a_after - a_before = integral over the interval of (h_after - h_before) d nu
+        from .. import gridspec as G
+        from ..chain import sampling_method
+
+        m5 = _build(spec, case)
+        b5 = m5.levy_model if spec.get("exp") else m5
+        lo, hi = -float(rng.uniform(0.4, 3.0)), float(rng.uniform(0.4, 3.0))
+
+        def judge_truncated(trip5, lo5, hi5, how):
+            rep5 = trip5.representation.name
+            h5, h0_ = _h(rep5, fv), _h(rep0, fv)
+            if 1 - alpha < 0.25 and any((h5(x) - h0_(x)) != 0 for x in (1e-3, -1e-3)):
+                if rep5 != "TILDE":
+                    R.violation(f"{fam}-truncation-changes-the-declared-representation", f"{label}: {how}: representation {rep5}, it was {rep0} "
+                                "(the two are not convertible for this activity index)", wit)
+                else:
+                    R.skip("conversion-oracle-singularity-too-strong")
+                return
+            v, e = Q.integrate_general(lambda x: (h5(x) - h0_(x)) * dens(x), lo5, hi5, [b for b in list(br) + [-1.0, 1.0, 0.0] if lo5 < b < hi5], 1 - alpha if 1 - alpha > 0 else 1.0)
+            R.hit("truncated_measure_drifts")
+            got = float(trip5.a)
+            if not (abs(got - a0 - v) <= 1e-8 * (abs(v) + abs(got) + abs(a0) + 1e-6) + 10 * e):
+                R.violation(f"{fam}-truncated-measure-drift-{'after-conversion' if rep5 != rep0 and how.startswith('Markov') else 'declared'}",
+                            f"{label}: {how} on [{lo5!r}, {hi5!r}]: drift {got!r} in {rep5}; the model's drift {a0!r} in {rep0} plus the integral of "
+                            f"(h_{rep5} - h_{rep0}) d nu over the interval is {a0 + v!r}", wit)
+
+        try:
+            b5.truncate_levy_measure((lo, hi))
+            judge_truncated(b5.levy_triplet, lo, hi, "truncate_levy_measure")
+            b5.levy_triplet.set_representation(LevyRepresentation.TILDE)
+            judge_truncated(b5.levy_triplet, lo, hi, "truncate_levy_measure then set_representation(TILDE)")
+        except Exception as exc:  # noqa: BLE001
+            R.violation(f"{fam}-truncate-levy-measure-raises", f"{label}: {type(exc).__name__}: {exc}", wit)
+        if case["seed"] % 2 == 0:
+            from rpylib.process.markovchain.markovchain import MarkovChainProcess
+
+            m6 = _build(spec, case)
+            try:
+                grid = G.build_grid({"ctor": "fixed", "dim": 1, "h": float(rng.uniform(0.02, 0.1)), "n": int(rng.integers(5, 30))}, m6)
+                proc = MarkovChainProcess(model=m6, method=sampling_method("ALIAS"), grid=grid)
+                pm = proc.model.levy_model if spec.get("exp") else proc.model
+                lo6, hi6 = (float(t) for t in grid.truncations[0])
+                R.hit("chain_model_drifts")
+                judge_truncated(pm.levy_triplet, lo6, hi6, "Markov-chain process's model")
+            except Exception as exc:  # noqa: BLE001
+                R.violation(f"{fam}-chain-construction-raises", f"{label}: {type(exc).__name__}: {exc}", wit)
     else:
         R.hit("conversion_roundtrips", 0)
     # ---- (iv) martingale identity through the three routes (exponential models) ---------------------------------------------------
